@@ -41,6 +41,8 @@ import (
 
 const envSeg = "C10_SEG"
 
+const subworkerASLimit = 8 << 30
+
 // segSpec is one unit of work run in a sub-worker process.
 type segSpec struct {
 	Kind    string   `json:"kind"` // bin | text | val
@@ -48,22 +50,38 @@ type segSpec struct {
 	Entries []string `json:"entries,omitempty"` // entry-point names (bin, text)
 	Family  string   `json:"family,omitempty"`  // network family (val)
 	NetIdx  int      `json:"netIdx,omitempty"`
-	Skip    int64    `json:"skip,omitempty"`  // cases with ordinal <= Skip are generated but not executed (resume after a fatal case)
-	Light   bool     `json:"light,omitempty"` // reduced budget (used for the -race copies)
+	Part    int      `json:"part,omitempty"` // val: this segment evaluates the variants of blocks with height % Parts == Part
+	Parts   int      `json:"parts,omitempty"`
+	Skip    int64    `json:"skip,omitempty"`    // cases with ordinal <= Skip are generated but not executed (resume after a fatal case)
+	Light   bool     `json:"light,omitempty"`   // reduced budget (used for the -race copies)
 	Abandon []string `json:"abandon,omitempty"` // entry points / operators not executed any more after repeated process-fatal inputs
-	Own     bool     `json:"own,omitempty"`   // this segment is the owner of its entry points for the decode_entry_points audit
+	Own     bool     `json:"own,omitempty"`     // this segment is the owner of its entry points for the decode_entry_points audit
 }
 
 type layout struct{ bin, text, val, race int }
 
 func layoutOf(tier string) layout {
 	if tier == "quick" {
-		return layout{bin: 5, text: 4, val: 6, race: 1}
+		return layout{bin: 8, text: 8, val: 12, race: 6}
 	}
-	return layout{bin: 24, text: 10, val: 26, race: 4}
+	return layout{bin: 32, text: 16, val: 48, race: 8}
 }
 
 func (l layout) total() int { return l.bin + l.text + l.val + l.race }
+
+// role maps a batch index to its workload: the -race copies first (they are the slowest), then the
+// validation histories, the text/JSON entry points and the binary decoders.
+func (l layout) role(k int) (string, int) {
+	switch {
+	case k < l.race:
+		return "race", k
+	case k < l.race+l.val:
+		return "val", k - l.race
+	case k < l.race+l.val+l.text:
+		return "text", k - l.race - l.val
+	}
+	return "bin", k - l.race - l.val - l.text
+}
 
 var families = []string{"compressed", "v1only", "v2genesis", "scrambled", "testnet", "legacywin"}
 
@@ -110,8 +128,10 @@ func plan(b *harness.B) []segSpec {
 	l := layoutOf(b.Tier)
 	k := b.Batch
 	var segs []segSpec
-	switch {
-	case k < l.bin:
+	role, j := l.role(k)
+	switch role {
+	case "bin":
+		k := j
 		var mine []string
 		for i, n := range binNames() {
 			if i%l.bin == k {
@@ -121,8 +141,7 @@ func plan(b *harness.B) []segSpec {
 		for i, c := range chunk(mine, 6) {
 			segs = append(segs, segSpec{Kind: "bin", Name: fmt.Sprintf("bin-%d-%d", k, i), Entries: c, Own: true})
 		}
-	case k < l.bin+l.text:
-		j := k - l.bin
+	case "text":
 		var mine []string
 		for i, e := range textRegistry() {
 			if i%l.text == j {
@@ -132,16 +151,15 @@ func plan(b *harness.B) []segSpec {
 		for i, c := range chunk(mine, 5) {
 			segs = append(segs, segSpec{Kind: "text", Name: fmt.Sprintf("text-%d-%d", j, i), Entries: c, Own: true})
 		}
-	case k < l.bin+l.text+l.val:
-		j := k - l.bin - l.text
-		nets := b.Pick(1, 4)
+	case "val":
+		// two batches share one generated history and split its blocks by parity
+		nets := b.Pick(1, 2)
 		for i := 0; i < nets; i++ {
-			fam := families[(j+i*5)%len(families)]
-			segs = append(segs, segSpec{Kind: "val", Name: fmt.Sprintf("val-%d-%d-%s", j, i, fam), Family: fam, NetIdx: j*100 + i})
+			fam := families[(j/2+i*5)%len(families)]
+			segs = append(segs, segSpec{Kind: "val", Name: fmt.Sprintf("val-%d-%d-%s-p%d", j/2, i, fam, j%2), Family: fam, NetIdx: (j/2)*100 + i, Part: j % 2, Parts: 2})
 		}
 	default:
 		// -race (checkptr) copies with a reduced budget
-		j := k - l.bin - l.text - l.val
 		var mine []string
 		for i, n := range binNames() {
 			if i%l.race == j {
@@ -157,10 +175,10 @@ func plan(b *harness.B) []segSpec {
 				tm = append(tm, e.Name)
 			}
 		}
-		for i, c := range chunk(tm, 30) {
+		for i, c := range chunk(tm, 10) {
 			segs = append(segs, segSpec{Kind: "text", Name: fmt.Sprintf("racetext-%d-%d", j, i), Entries: c, Light: true})
 		}
-		segs = append(segs, segSpec{Kind: "val", Name: fmt.Sprintf("raceval-%d", j), Family: families[(j*5+5)%len(families)], NetIdx: 9000 + j, Light: true})
+		segs = append(segs, segSpec{Kind: "val", Name: fmt.Sprintf("raceval-%d", j), Family: families[(j*5+5)%len(families)], NetIdx: 9000 + j, Light: true, Parts: 1})
 	}
 	return segs
 }
@@ -209,9 +227,12 @@ func deathKind(stderrHead string) string {
 	return "process-death"
 }
 
-func segTimeout(tier string) time.Duration {
+func segTimeout(tier string, seg segSpec) time.Duration {
 	if tier == "quick" {
-		return 150 * time.Second
+		if seg.Light {
+			return 60 * time.Second
+		}
+		return 100 * time.Second
 	}
 	return 25 * time.Minute
 }
@@ -236,7 +257,8 @@ func supervise(b *harness.B, seg segSpec) {
 		so, _ := os.Create(filepath.Join(sub, "stdout"))
 		se, _ := os.Create(filepath.Join(sub, "stderr"))
 		cmd.Stdout, cmd.Stderr = so, se
-		cmd.SysProcAttr = &syscall.SysProcAttr{Setpgid: true}
+		// the sub-worker stays in the supervisor's process group, so the harness' group kill reaches it
+		cmd.SysProcAttr = &syscall.SysProcAttr{Pdeathsig: syscall.SIGKILL}
 		os.WriteFile(filepath.Join(sub, "cmd"), []byte(envSeg+"='"+string(raw)+"' "+exe+" "+strings.Join(args, " ")+"\n"), 0o644)
 		t0 := time.Now()
 		if err := cmd.Start(); err != nil {
@@ -245,19 +267,33 @@ func supervise(b *harness.B, seg segSpec) {
 		}
 		done := make(chan error, 1)
 		go func() { done <- cmd.Wait() }()
+		// watchdog on the sub-worker's own CPU time (load independent), with a wall-clock cap far above it
 		timedOut := false
-		select {
-		case <-done:
-		case <-time.After(segTimeout(b.Tier)):
+		cpuLimit := segTimeout(b.Tier, seg)
+		wallCap := time.After(8 * cpuLimit)
+		tick := time.NewTicker(400 * time.Millisecond)
+	wait:
+		for {
+			select {
+			case <-done:
+				break wait
+			case <-tick.C:
+				if procCPU(cmd.Process.Pid) <= cpuLimit {
+					continue
+				}
+			case <-wallCap:
+			}
 			timedOut = true
-			syscall.Kill(-cmd.Process.Pid, syscall.SIGQUIT)
+			cmd.Process.Signal(syscall.SIGQUIT)
 			select {
 			case <-done:
 			case <-time.After(5 * time.Second):
-				syscall.Kill(-cmd.Process.Pid, syscall.SIGKILL)
+				cmd.Process.Kill()
 				<-done
 			}
+			break wait
 		}
+		tick.Stop()
 		so.Close()
 		se.Close()
 		b.Count("subworkers_run", 1)
@@ -277,7 +313,7 @@ func supervise(b *harness.B, seg segSpec) {
 				tok = tok[:i]
 			}
 			salvage(b, sub)
-			b.Inconclusive(fmt.Sprintf("sub-worker watchdog fired after %s in segment kind %s (last journalled case class: %s)", segTimeout(b.Tier), seg.Kind, tok))
+			b.Inconclusive(fmt.Sprintf("sub-worker watchdog fired after %s of CPU time in segment kind %s (last journalled case class: %s)", segTimeout(b.Tier, seg), seg.Kind, tok))
 			return
 		}
 		var r harness.Result
@@ -336,6 +372,26 @@ func supervise(b *harness.B, seg segSpec) {
 	b.Inconclusive(fmt.Sprintf("segment of kind %s abandoned after %d fatal sub-worker deaths", seg.Kind, maxAttempts))
 }
 
+// procCPU is the CPU time (user+system) a process has used so far.
+func procCPU(pid int) time.Duration {
+	raw, err := os.ReadFile(fmt.Sprintf("/proc/%d/stat", pid))
+	if err != nil {
+		return 0
+	}
+	st := string(raw)
+	i := strings.LastIndexByte(st, ')')
+	if i < 0 {
+		return 0
+	}
+	f := strings.Fields(st[i+1:])
+	if len(f) < 13 {
+		return 0
+	}
+	ut, _ := strconv.ParseInt(f[11], 10, 64)
+	stt, _ := strconv.ParseInt(f[12], 10, 64)
+	return time.Duration(ut+stt) * (time.Second / 100) // USER_HZ = 100 on Linux
+}
+
 func keepWork() bool { return os.Getenv("C10_KEEP") != "" }
 
 func capStr(s string, n int) string {
@@ -382,6 +438,13 @@ func run(b *harness.B) {
 			return
 		}
 		runtime.LockOSThread()
+		if !raceEnabled {
+			// bound the address space of a sub-worker: an input that makes a decoder ask for tens of
+			// gigabytes then dies at once with "out of memory" (a finding, attributed through the journal)
+			// instead of dragging the machine down
+			lim := syscall.Rlimit{Cur: subworkerASLimit, Max: subworkerASLimit}
+			syscall.Setrlimit(syscall.RLIMIT_AS, &lim)
+		}
 		runSegment(b, seg)
 		return
 	}
@@ -476,7 +539,7 @@ func main() {
 			l := layoutOf(t)
 			var out []int
 			for i := 0; i < l.race; i++ {
-				out = append(out, l.bin+l.text+l.val+i)
+				out = append(out, i)
 			}
 			return out
 		},
